@@ -59,6 +59,8 @@ def g_pool(draw):
     c["alpha"] = r.uniform(0.1, 0.9, C)
     # initial mixture weights handed to the constructor of an ML machine (caller-owned; their float sum is 1 only up
     # to rounding)
+    # a count floor ("at least N effective frames") that may exceed every component's count in the training set
+    c["count_floor"] = gen.choice(draw, [float(np.finfo(float).eps)] * 3 + [1e3])
     wk = r.uniform(0.2, 1.0, k)
     wk = wk / wk.sum()
     if gen.boolean(draw):
@@ -250,7 +252,8 @@ def run_op(pool, op):
                 # fixed adaptation ratios, one per component, handed over as the caller's array
                 kw = dict(map_relevance_factor=None, map_alpha=pool.alpha if alpha is None else alpha)
             return GMMMachine(prior.n_gaussians, trainer="map", ubm=prior, max_fitting_steps=steps, convergence_threshold=None,
-                              update_means=True, update_variances=False, update_weights=case["upd"][2], **kw)
+                              update_means=True, update_variances=False, update_weights=case["upd"][2],
+                              mean_var_update_threshold=float(case.get("count_floor", np.finfo(float).eps)), **kw)
         g = build(pool.prior)
         if steps:
             g.fit(data)
